@@ -47,6 +47,7 @@ type ClientPlan struct {
 	BackoffMax  int64  `json:"backoff_max,omitempty"`
 	Errors      bool   `json:"errors,omitempty"`
 	Reverse     bool   `json:"reverse,omitempty"`
+	KeepAlive   bool   `json:"keepalive,omitempty"`
 }
 
 type Op struct {
@@ -105,7 +106,7 @@ func (e *Env) Build(p *Plan) (*World, error) {
 			return nil, fmt.Errorf("client %s: no server %d", cp.Name, cp.Server)
 		}
 		c, err := e.NewClient(cp.Name, w.Servers[cp.Server], ClientOpts{Kind: cp.Kind, NoReconnect: cp.NoReconnect, Ping: cp.PingNs,
-			Timeout: cp.TimeoutNs, BackoffMin: cp.BackoffMin, BackoffMax: cp.BackoffMax, Errors: cp.Errors, Reverse: cp.Reverse})
+			Timeout: cp.TimeoutNs, BackoffMin: cp.BackoffMin, BackoffMax: cp.BackoffMax, Errors: cp.Errors, Reverse: cp.Reverse, KeepAlive: cp.KeepAlive})
 		if err != nil {
 			return nil, fmt.Errorf("client %s: %w", cp.Name, err)
 		}
